@@ -7,10 +7,15 @@ below is a function of that triple only, exactly as in the code.  Reals are `Rat
 The CRS is an opaque tag (`0` = `None`); CRS *comparison* belongs to C01, here only
 "the view carries the tag of its parent" is observed.
 
-The model follows the code *after* the three `fix:` commits of branch `fix-C02`
-(zoom_to(int) shape, `gbox[-1]`, `BoundingBox.from_transform` for rotated grids).
+The model follows the code *after* the `fix:` commits of branch `fix-C02`
+(zoom_to(int) shape, `gbox[-1]`, `BoundingBox.from_transform` for rotated grids; the fourth,
+`GCPGeoBox.boundingbox`, concerns the abstract GCP mapping and is judged by the harness only).
 The pre-fix behaviour is kept as `…Old` definitions in `Props/C02.lean` only to prove the
 concrete counterexamples.
+
+Not modelled (other properties / out of scope): crop regions given as Geometry /
+BoundingBox / GeoBox (`compute_crop` first branch), `to_crs`, `snap_to`, `enclosing`, `|`, `&`,
+slices with a step (the code raises `NotImplementedError` for steps other than 1).
 -/
 import OdcGeo.Model.IO
 import OdcGeo.Model.Affine
@@ -95,7 +100,9 @@ Rotated / sheared branch: `decompose_rws` takes `WS = cholesky(AᵀA)ᵀ =
 [[n, w], [0, m]]` with `n = √(a²+d²)`, `w = (ab+de)/n`, `m = √(b²+e²-w²)`, flips the
 sign of the last row when `det (A·WS⁻¹) < 0` and returns the diagonal.  The two square
 roots are inputs (`n`, `m`) whose defining equations are hypotheses of the theorems
-(DESIGN §3.1); cholesky raises `LinAlgError` (a `ValueError`) for a singular matrix. -/
+(DESIGN §3.1); cholesky raises `LinAlgError` (a `ValueError`) for a singular matrix in exact
+arithmetic (in doubles a singular rotated matrix may slip through by rounding: not on the
+exact stream). -/
 def resolution (g : GeoBox) (n m : Rat) : Res (Rat × Rat) :=
   if isAffineST g.A then .ok (g.A.a, g.A.e)
   else if g.A.det = 0 then .error .valueError
